@@ -346,14 +346,23 @@ SCENARIO(v2_race1) {
   w.finish();
 }
 
-// T0 nests op0 and joins, T1 completes op0, T2 nests + starts + completes op1
+// two workers and one joiner, each on its own thread
+SCENARIO(v2_wide) {
+  World<V2> w(2, 1, 3);
+  int t1 = rt::spawn([&] { w.spawn_nest(0); w.fire(0); });
+  int t2 = rt::spawn([&] { w.spawn_nest(1); w.fire(1); });
+  int t3 = rt::spawn([&] { w.join(0); });
+  rt::join(t1); rt::join(t2); rt::join(t3);
+  w.finish();
+}
+
+// T0 nests op0 and joins; T1 nests + starts + completes op1, then completes op0
 SCENARIO(v2_race2) {
   World<V2> w(2, 1, 3);
   w.spawn_nest(0);
-  int t1 = rt::spawn([&] { w.fire(0); });
-  int t2 = rt::spawn([&] { w.spawn_nest(1); w.fire(1); });
+  int t1 = rt::spawn([&] { w.spawn_nest(1); w.fire(1); w.fire(0); });
   w.join(0);
-  rt::join(t1); rt::join(t2);
+  rt::join(t1);
   w.finish();
 }
 
@@ -369,25 +378,24 @@ SCENARIO(v2_late_nest) {
   w.finish();
 }
 
-// spawn_detached instead of nest + own receiver
+// v2_race2 with spawn_detached instead of nest + own receiver
 SCENARIO(v2_detached) {
   World<V2> w(2, 1, 3);
   w.spawn_detached(0);
-  int t1 = rt::spawn([&] { w.fire(0); });
-  int t2 = rt::spawn([&] { w.spawn_detached(1); w.fire(1); });
+  int t1 = rt::spawn([&] { w.spawn_detached(1); w.fire(1); w.fire(0); });
   w.join(0);
-  rt::join(t1); rt::join(t2);
+  rt::join(t1);
   w.finish();
 }
 
-// two racing joins and one operation completed by a third thread
+// two racing joins (T0, T2) and one operation completed by T1
 SCENARIO(v2_two_joins) {
   World<V2> w(1, 2, 3);
   w.spawn_nest(0);
   int t1 = rt::spawn([&] { w.fire(0); });
-  int t2 = rt::spawn([&] { w.join(0); });
-  int t3 = rt::spawn([&] { w.join(1); });
-  rt::join(t1); rt::join(t2); rt::join(t3);
+  int t2 = rt::spawn([&] { w.join(1); });
+  w.join(0);
+  rt::join(t1); rt::join(t2);
   w.finish();
 }
 
